@@ -124,6 +124,8 @@ def invalid_id(ctx, fname, make_args, argname, W, lo, is_reader, ok_ret=0, what=
     where = FC.fnloc(ctx, fname)
     nworlds = len(ws)
     for w in ws:
+        if w.status == 'infeasible':
+            continue
         h = harmful(w, is_reader, ok_ret)
         if not h:
             continue
@@ -135,7 +137,8 @@ def invalid_id(ctx, fname, make_args, argname, W, lo, is_reader, ok_ret=0, what=
             cw = bpa.analyse(mod, fname, lambda: make_args(c), max_worlds=4, max_steps=200000, gcache=ctx.gcache)
             eff = []
             for x in cw:
-                eff += harmful(x, is_reader, ok_ret)
+                if x.status != 'infeasible':
+                    eff += harmful(x, is_reader, ok_ret)
             if eff:
                 return 'violation', ('%s: %sidentifier %d (valid identifiers are below %d) is not rejected: %s'
                                      % (where, what, c, lo, '; '.join(sorted(set(eff))[:4]))), nworlds
@@ -209,6 +212,8 @@ def _task(t):
         ws = bpa.analyse(ctx.mod, fname, mk, max_worlds=4, gcache=ctx.gcache)
         out = []
         for w in ws:
+            if w.status == 'infeasible':
+                continue
             h = harmful(w, gs == 'get')
             if h:
                 nd = [n_ for n_ in w.notes if n_[0] == 'null-deref']
@@ -257,6 +262,8 @@ def legacy_task(ctx, t):
             ev = ctx.enum_value(fld['enum']) & B.mask(W)
             ws = bpa.analyse(mod, fname, lambda: (args(pdu, ev, valp), regs()), max_worlds=4, gcache=ctx.gcache)
             for w in ws:
+                if w.status == 'infeasible':
+                    continue
                 h = harmful(w, True, EINVAL_RET)
                 if h:
                     nd = [n_ for n_ in w.notes if n_[0] == 'null-deref']
